@@ -83,3 +83,73 @@ def recording_plugin(log, tag='P'):
     Recorder.__name__ = Recorder.__qualname__ = 'Recorder_%s_%d' % (tag, len(_CACHE))
     _CACHE[key] = Recorder
     return Recorder
+
+
+def program_plugins(prog, log):
+    """Recording plugin classes synthesised from a PluginChain program (spec/PluginChain.tla): prog[p-1] is a dict
+    {buc, hcr, huc, log}.  Every hook appends {p, h, seen} to `log`; what it then does is what the program says.
+    Request modifications are header tags 'X-Tag-<p>-<hook>', response modifications replace the p-th '_' of the body."""
+    from proxy.http.proxy import HttpProxyBasePlugin
+    from proxy.http.exception import HttpRequestRejected
+    import re
+    tagre = re.compile(rb'^x-tag-(\d+)-(\w+)$')
+
+    def seen_tags(request):
+        out = []
+        for k in (request.headers or {}):
+            m = tagre.match(k)
+            if m:
+                out.append([int(m.group(1)), m.group(2).decode()])
+        return out
+
+    def make(p, beh):
+        class Prog(HttpProxyBasePlugin):
+            def __init__(self, *a, **kw):
+                super().__init__(*a, **kw)
+                self.nhcr = 0
+
+            def before_upstream_connection(self, request):
+                log.append({'p': p, 'h': 'buc', 'seen': seen_tags(request)})
+                b = beh['buc']
+                if b == 'mod':
+                    request.add_header(b'X-Tag-%d-buc' % p, b'1')
+                elif b == 'drop':
+                    return None
+                elif b == 'rej':
+                    raise HttpRequestRejected(status_code=418, reason=b'R-%d-buc' % p, body=b'rejected by %d' % p)
+                return request
+
+            def handle_client_request(self, request):
+                log.append({'p': p, 'h': 'hcr', 'seen': seen_tags(request)})
+                self.nhcr += 1
+                b = beh['hcr']
+                if b == 'mod':
+                    request.add_header(b'X-Tag-%d-hcr' % p, b'1')
+                elif b == 'drop' or (b == 'drop2' and self.nhcr == 2):
+                    return None
+                elif b == 'rej':
+                    raise HttpRequestRejected(status_code=418, reason=b'R-%d-hcr' % p, body=b'rejected by %d' % p)
+                return request
+
+            def handle_upstream_chunk(self, chunk):
+                raw = bytes(chunk)
+                body = raw.rsplit(b'\r\n\r\n', 1)[-1]
+                log.append({'p': p, 'h': 'huc', 'seen': [int(chr(c)) for c in body if chr(c).isdigit()]})
+                b = beh['huc']
+                if b == 'mod':
+                    head, _, body = raw.rpartition(b'\r\n\r\n')
+                    body = body[:p - 1] + b'%d' % p + body[p:]
+                    return memoryview(head + b'\r\n\r\n' + body)
+                if b == 'drop':
+                    return None
+                return chunk
+
+            def on_access_log(self, context):
+                log.append({'p': p, 'h': 'log', 'seen': []})
+                return None if beh['log'] == 'none' else context
+
+            def on_upstream_connection_close(self):
+                log.append({'p': p, 'h': 'close', 'seen': []})
+        Prog.__name__ = Prog.__qualname__ = 'Prog_%d_%d' % (p, id(log))
+        return Prog
+    return [make(i + 1, b) for i, b in enumerate(prog)]
